@@ -281,6 +281,24 @@ def check_bare(sc, via_argument=False):
 def oracle(ctx, hints, effort):
     rng = ctx.np
     findings, evals = {}, 0
+    # fixed regimes at the edges of the quantifier: a crust a few kg/m3 below the density of ice over soil (a mixture, not ice), and deep
+    # cold firn at L band (loss tangent of a few 1e-5: small, not zero)
+    fixed = [("closed-form:near-ice-density", dict(thickness=[0.5], density=[909.0], temperature=[260.0], frequency=10.65e9, nmax=16,
+                                                   substrate=dict(kind="flat", T=270.0, eps=[6.0, 0.5]), emmodel="nonscattering", microstructure="homogeneous", micro={})),
+             ("closed-form:near-ice-density", dict(thickness=[0.3, 2.0], density=[300.0, 911.0], temperature=[255.0, 262.0], frequency=36.5e9, nmax=16,
+                                                   substrate=dict(kind="flat", T=270.0, eps=[6.0, 0.5]), emmodel="nonscattering", microstructure="homogeneous", micro={})),
+             ("closed-form:cold-firn-L-band", dict(thickness=[200.0], density=[350.0], temperature=[230.0], frequency=1.4e9, nmax=16,
+                                                   substrate=dict(kind="flat", T=250.0, eps=[3.2, 0.001]), emmodel="nonscattering", microstructure="homogeneous", micro={})),
+             ("closed-form:cold-firn-L-band", dict(thickness=[50.0, 400.0], density=[300.0, 400.0], temperature=[225.0, 235.0], frequency=1.4e9, nmax=16,
+                                                   substrate=dict(kind="flat", T=250.0, eps=[3.2, 0.001]), emmodel="nonscattering", microstructure="homogeneous", micro={}))]
+    for key_, sc_ in fixed:
+        try:
+            evals += 1
+            r = check_closed_form(sc_)
+        except AssertionError:
+            continue
+        if r:
+            findings.setdefault(key_, Finding(key_, f"Tb differs from the incoherent closed form by {r[0]:.3g} K", {"kind": "stack", "scene": sc_}, r[0], r[1]))
     for it in range(10 if effort == "routine" else 100):
         sc = ns_scene(rng, max_layers=8)
         sc["nmax"] = int(rng.choice([8, 16, 32]))
